@@ -114,6 +114,10 @@ def handleGraph (args : List String) : Verdict :=
     let ideq ← r8.tail.head?
     let ok := partsOk && snOk && distSpecOk && redexp == "11" && (ideq == "10" || ideq == "-")
     let cyc := m + (components nbrs n (fuel + n)).length - n
+    -- the hypotheses of components_partition / bfs_terminates, decided on the observed adjacency lists
+    let hypOk := ((List.range n).all fun v => (adj v).all fun x => decide (x < n) && (adj x).contains v) &&
+      decide (((List.range n).map fun v => (adj v).length).sum ≤ fuel)
+    if !hypOk then some ({ agree := false, propOk := true, msg := "observed adjacency lists are not closed/symmetric or exceed the fuel bound: the theorems' hypotheses are not met", tag := "graph:hyp-fail" } : Verdict) else
     pure ({ agree := distModelOk && partsOk, propOk := ok,
             msg := if ok then "model labelling differs" else s!"components={partsOk} singleNetwork={snOk} distances={distSpecOk} reduceExpand={redexp} structureEquivalence={ideq} (want 10)",
             tag := s!"graph:n{min n 13}:{if connected then "connected" else "disconnected"}:{if cyc == 0 then "forest" else if cyc == 1 then "one-ring" else "fused-rings"}" } : Verdict)).getD (bad "graph fields")
